@@ -165,7 +165,9 @@ def gen_invalid(rng, valid):
             '=SUM(%s))*((%s)' % (a, b), '=%s)&(%s' % (a, valid[1:]),
             # a brace closing parentheses and the other way round
             '=((%s}' % a, '={(%s})' % a, '={%s))' % a, '=SUM({%s,%s))' % (a, b),
-            '=(%s,{%s)}' % (a, b)))
+            '=(%s,{%s)}' % (a, b),
+            # a row separator outside braces
+            '=SUM(SUM(%s;%s))' % (a, b), '=SUM(%s,(%s;%s))' % (a, b, a)))
     if k == 1:
         return 'unbalanced', valid + ')'
     if k == 2:
@@ -181,6 +183,7 @@ def gen_invalid(rng, valid):
             # no left operand after an argument separator
             '=SUM(%s,%s%s)' % (a, op, b), '=IF(%s,%s%s,%s)' % (a, op, b, a),
             '={%s,%s%s}' % ('1', rng.choice('*/^&'), '2'), '=(%s,%s%s)' % (a, op, b),
+            '=SUM(%s,%%)' % a, '=%s< =%s' % (a, b), '=%s < > %s' % (a, b), '=%s> =%s' % (a, b),
             # the range operator without its first operand
             '=:B2', '=SUM(:B2,%s)' % a, '=%s+:C3' % a, '=SUM($:$B$2)'))
     if k == 5:
@@ -188,6 +191,10 @@ def gen_invalid(rng, valid):
             '=%s %s' % (a, b), '=%s%s' % ('"s"', ' "t"'), '=(%s) %s' % (valid[1:], b),
             '=%s(%s)' % (a, b), '=SUM(%s %s)' % (a, b), '=%s %s+1' % (a, b),
             '=%s\t%s' % (a, b), '=A1 #N/A', '=A1 #VALUE!', '=SUM(A1:B2 #NULL!)',
+            # an operand right after a closing parenthesis / brace, glued by a line feed
+            '=SUM((%s)%s)' % (a, b), '=(%s)(%s)' % (a, b), '=SUM(SUM(%s)%s)' % (a, b),
+            '=SUM(%s{%s})' % (a, b), '=(A1)B1', '={%s}%s' % (a, b), '=%s\n%s' % (a, b),
+            '=SUM(A1:B2 INDEX(C1:D2,1,1),%s)' % a,
             '=B2 #DIV/0!+1', '=A1 #n/a', '=%s #NUM!' % a))
     if k == 6:
         return 'ragged-array', rng.choice((
@@ -307,6 +314,10 @@ def run(spec, ctx):
         head = rng.choice(('1', 'x', '(', '"a"', '+'))
         m.check('%s{=%s}' % (head, v[1:]), 'invalid:leading-before-brace',
                 expect='reject')
+        err = rng.choice(ERRS)
+        m.check(err + rng.choice(('xyz', '+1', ' 2', '(1)', '!', 'A1')),
+                'invalid:trailing-after-error', expect='reject')
+        m.check(rng.choice((err, ' %s ' % err, err.lower())), 'valid-error-alone')
     # letter case: the same formulas in another case, error literals included
     for i in range(n // 12):
         v = rng.choice(accepted or valids)
